@@ -9,7 +9,7 @@ STUBS = ["numba dispatcher contract: eager signatures of the support kernels che
 OUTSIDE = ["GJK runs on the updated collider (see C01)", "ConvexHullVertices (update_pose not implemented)", "rounding"]
 BOUNDS = {"quick": "10 collider types (+Margin) x sequences of 2-3 poses (signed-permutation rotation x FULLY symbolic translation in [-1000,1000]^3 each), pose given as a fresh array or as stack[i], queries interleaved; query direction on a line",
           "thorough": "more rotation sequences and direction lines"}
-WALL_BUDGET = {"quick": 300, "thorough": 900}
+WALL_BUDGET = {"quick": 300, "thorough": 600}
 
 
 def make(family, args):
